@@ -314,6 +314,16 @@ def base_databases(rng, quick):
         db.refresh()
         return db
     out.append(("extras2", mk_extras2))
+
+    def mk_extras3():
+        from odxtools.database import Database
+        db = Database()
+        db.add_auxiliary_file("lib.jar", io.BytesIO(b"library"))
+        db.add_auxiliary_file("job.jar", io.BytesIO(b"job"))
+        db._process_xml_tree(ET.fromstring(open(os.path.join(os.path.dirname(os.path.abspath(__file__)), "c11_extra3.xml")).read()))
+        db.refresh()
+        return db
+    out.append(("extras3", mk_extras3))
     out.append(("comparams", lambda: hc.load_docs([hc.cpsubset_doc(), hc.cpsubset2_doc(), hc.cpspec_doc()])))
     return out
 
@@ -532,7 +542,18 @@ def probes(ck):
             report(ck, {"parent-ref-docref-added"}, f"PARENT-REF without DOCREF: {err or d}", {"probe": "parent-docref"})
     except Exception as e:  # noqa
         ck.note_broken(f"probe parent-docref: {type(e).__name__}: {e}")
-    # 3. names the parsers read but no template emits
+    # 3. diagnostic variables: the template which writes them has never worked
+    try:
+        db = hc.load_docs([open(os.path.join(os.path.dirname(os.path.abspath(__file__)), "c11_diagvar.xml")).read()])
+        ck.count(("probe", "diag-variables"))
+        db2, err, info = roundtrip(db, "probe")
+        d = None if err else db_diff(db, db2)
+        if err or d:
+            report(ck, {"diag-variables-unwritable"}, f"database with DIAG-VARIABLES / VARIABLE-GROUPS: {err or d} {info if err else ''}",
+                   {"probe": "diag-variables"})
+    except Exception as e:  # noqa
+        ck.note_broken(f"probe diag-variables: {type(e).__name__}: {e}")
+    # 4. names the parsers read but no template emits
     import translate
     reads, writes, gaps = translate.xml_names()
     still = [g for g in gaps if g in reads and g not in writes]
